@@ -48,6 +48,13 @@ pub(crate) struct WorkerState {
 }
 
 impl WorkerState {
+    /// The state holds a reference to itself (a process never frees it). A simulation that
+    /// creates thousands of workers in one process drops it explicitly.
+    #[cfg(feature = "verif")]
+    pub(crate) fn verif_drop_self_reference(&mut self) {
+        self.state_ref = None;
+    }
+
     pub(crate) fn comm(&mut self) -> &mut WorkerComm {
         &mut self.comm
     }
